@@ -101,6 +101,23 @@ def table(T):
     add('stack-1', 2, 'num', lambda t, u: stack_(T, t, u, -1), lambda a, b: T.stack([a, b], a.dim()), same_default=True, no_nan_default=True)
     add('stack_single', 1, 'num', lambda t: stack1_(T, t), lambda a: a.unsqueeze(0))
     add('where', 3, 'where', lambda t, c, u: t.where(c, u), lambda a, c, b: a.where(c, b))
+    # ---- short compositions: a structural operation followed by a second operation on its (patterned) result
+    byname = {o['name']: o for o in ops}
+    firsts = ['T', 'transpose01', 'permute_rev', 'unsqueeze0', 'unsqueeze-1', 'expand_front', 'default_to[inf]', 'getitem0', 'flatten', 'clone', 'dim_to_dense[0]', 'freshen', 'neg_', 'add_scalar[2.0]']
+    seconds = ['add_scalar[2.0]', 'mul_scalar[-1.5]', 'abs', 'relu_', 'nan_to_num_', 'clamp_min', 'lt_scalar[0.0]', 'norm1[0]', 'to_dense', 'flatten', 'T', 'unsqueeze0', 'getitem0',
+               'getitem_last', 'iter', 'dim_to_dense[last]', 'default_to[0]', 'expand_front', 'neg_', 'clone', 'to_bool']
+    drops = {'getitem0': 1}
+    for fa in firsts:
+        for fb in seconds:
+            A, Bo = byname[fa], byname[fb]
+            if A['kind'] != 'num' or Bo['kind'] != 'num' or fa == fb:
+                continue
+            mind = max(A.get('mindim', 0), Bo.get('mindim', 0) + drops.get(fa, 0))
+            if fa == 'flatten':
+                mind = max(mind, 1)
+            ops.append(dict(name=f'{fa}>>{fb}', n=1, kind='num', inplace=False, mutates_self=bool(A['inplace'] or Bo['inplace']), composed=True,
+                            pt=(lambda A, Bo: lambda t: Bo['pt'](A['pt'](t)))(A, Bo), dense=(lambda A, Bo: lambda a: Bo['dense'](A['dense'](a)))(A, Bo),
+                            mindim=mind, maxdim=min(A.get('maxdim', 99), 99), nonlinear=bool(A.get('nonlinear') or Bo.get('nonlinear'))))
     return ops
 
 
